@@ -344,6 +344,12 @@ func typesSet(set []uint16, types ...uint16) bool {
 	return false
 }
 
+// parentSideDelegation reports whether a type bitmap is that of the
+// parent zone's record at a delegation point: NS present, SOA absent.
+func parentSideDelegation(types []uint16) bool {
+	return typesSet(types, dns.TypeNS) && !typesSet(types, dns.TypeSOA)
+}
+
 func findClosestEncloser(name string, nsec []dns.RR) (string, string) {
 	prepared, err := prepareNSEC3Set(nsec, "")
 	if err != nil {
@@ -583,6 +589,12 @@ func VerifyNODATAForZoneWithWork(
 		// VerifyNODATANSEC performs so a child-signed denial can't
 		// masquerade as a parent-side proof.
 		if q.Qtype == dns.TypeDS && typesSet(types, dns.TypeSOA) {
+			return false, ErrNSECBadDelegation
+		}
+		// And the parent's record at a delegation point (NS without
+		// SOA) denies DS only (RFC 6840 §4.1): every other type there
+		// belongs to the child.
+		if q.Qtype != dns.TypeDS && parentSideDelegation(types) {
 			return false, ErrNSECBadDelegation
 		}
 		return true, nil
